@@ -337,6 +337,29 @@ fn run_doc(d: &TextDoc, prop: &str, ctx: &mut Ctx) {
             json!({"doc": doc_json(d, Some(y)), "x": x, "y": y, "source": shown_json(&s), "loaded": g.map(|g| shown_json(&g)), "loaded_size": [got.get_width(), got.get_height()],
                    "file": vharness::bytes_to_json(&bytes[..bytes.len().min(600)])}),
         );
+        return;
+    }
+    // second generation: the loaded file is saved with the same options and loaded again (what a user does with a file)
+    ctx.count("transitions", 2);
+    ctx.count("second_generation", 1);
+    let again = match catch(|| got.to_bytes(d.ext, &o).and_then(|b| Buffer::from_bytes(&PathBuf::from(format!("x.{}", d.ext)), false, &b))) {
+        Err(p) => {
+            ctx.panic(&p, doc_json(d, None));
+            return;
+        }
+        Ok(Err(e)) => {
+            ctx.violation(format!("diff:{}:second-generation:refused", d.ext), json!({"doc": doc_json(d, None), "error": e.to_string()}));
+            return;
+        }
+        Ok(Ok(b)) => b,
+    };
+    if let Some((kind, x, y)) = compare(&src, &again, d.w, h, &cmp) {
+        let s = shown(&src, x, y);
+        let g = if y < again.get_height() && x < again.get_width() { Some(shown(&again, x, y)) } else { None };
+        ctx.violation(
+            format!("diff:{}:second-generation:{kind}", d.ext),
+            json!({"doc": doc_json(d, Some(y)), "x": x, "y": y, "source": shown_json(&s), "loaded_twice": g.map(|g| shown_json(&g)), "first_load_size": [got.get_width(), got.get_height()], "second_load_size": [again.get_width(), again.get_height()]}),
+        );
     }
 }
 
@@ -635,6 +658,33 @@ fn build_c15(tier: &str) -> (Vec<Job>, Value) {
         }
         n += rows.len();
         chunk_docs(ext, w, rows, 40, o, false, "every printable character", &mut docs);
+        // runs: every alphabet cell in runs of 1..=10 at four placements; every printable character in runs of 3, 4, 5 and 26 (run length encodings)
+        for prep in 0..3u8 {
+            let o = Opt { bits: DEFAULT_BITS | 64, prep, ctrl: 0, ice: 0 };
+            let mut rows: Vec<Vec<TCell>> = Vec::new();
+            let wz = w as usize;
+            for a in &alpha {
+                for k in 1..=10usize {
+                    let run: Vec<TCell> = std::iter::repeat(*a).take(k).collect();
+                    rows.push([alpha[1]].into_iter().chain(run.iter().copied()).chain([alpha[1]]).collect());
+                    rows.push(run.iter().copied().chain([alpha[1]]).collect());
+                    rows.push(std::iter::repeat(alpha[1]).take(wz - k).chain(run.iter().copied()).collect());
+                    rows.push(std::iter::repeat(alpha[1]).take(wz - 1 - k).chain(run.iter().copied()).chain([alpha[1]]).collect());
+                }
+            }
+            if prep == 0 {
+                for c in &chars {
+                    let mut r: Vec<TCell> = Vec::new();
+                    for k in [3usize, 4, 5, 26.min(wz - 14)] {
+                        r.extend(std::iter::repeat(t(Cell::new(*c, 7, 0))).take(k));
+                        r.push(alpha[1]);
+                    }
+                    rows.push(r);
+                }
+            }
+            n += rows.len();
+            chunk_docs(ext, w, rows, 25, o, false, "runs of cells and characters", &mut docs);
+        }
         // every ordered pair of (fg 0..15, bg 0..7) attributes
         if !matches!(ext, "asc" | "ata") {
             let mut cells: Vec<TCell> = Vec::new();
